@@ -15,6 +15,65 @@ RECV_ROOTS = lambda n: n.startswith(("__root_recv__", "__root_arecv__", "__root_
 FLEX_ROOTS = lambda n: n.startswith(("__root_flexapi__", "__root_flexpush", "__root_size__K_FlexVec"))
 
 
+import functools
+import inspect
+import types
+
+
+def _once(fn):
+    """A rule function runs once per report and argument list, however many bundles mention it."""
+    @functools.wraps(fn)
+    def w(F, R, *a, **kw):
+        done = R.__dict__.setdefault("_rules_done", set())
+        key = (fn.__module__, fn.__name__, repr(a), repr(sorted(kw.items())))
+        if key in done:
+            return None
+        done.add(key)
+        return fn(F, R, *a, **kw)
+    return w
+
+
+for _m in (e1_layout, e2_guards, e3_io, e5_formulas, e7_containers, e8_portable, e9_witness):
+    for _n, _o in list(vars(_m).items()):
+        if isinstance(_o, types.FunctionType) and _o.__module__ == _m.__name__ and not _n.startswith("_"):
+            _ps = list(inspect.signature(_o).parameters)
+            if _ps[:2] == ["F", "R"]:
+                setattr(_m, _n, _once(_o))
+
+_generated_rules = e6_generated.generated_rules
+
+
+def _gen(F, R, which):
+    """generated-code rules per kind, each kind at most once per report"""
+    done = R.__dict__.setdefault("_gen_done", set())
+    todo = set(which) - done
+    done |= todo
+    if todo:
+        _generated_rules(F, R, todo)
+
+
+e6_generated.generated_rules = _gen
+e6_generated.tag_accept_rules = _once(e6_generated.tag_accept_rules)
+
+
+def FOUNDATION(F, R):
+    """What every property about values in buffers stands on (each quantifies over every type shape): the layout constants are the
+    compiler's and the C rule's, views never exceed their bytes, size() is the extent, validators read what the views cover, portable
+    scalars (usable as fields and as length/offset words) keep their byte order. A break here breaks the properties below it."""
+    e1_layout.layout_rules(F, R)
+    e5_formulas.base_formula_rules(F, R)
+    e5_formulas.size_formula_rules(F, R)
+    e5_formulas.gate_rules(F, R)
+    e6_generated.generated_rules(F, R, {"ptr", "size", "validate"})
+    e6_generated.tag_accept_rules(F, R)
+    e7_containers.vec_string_validators(F, R)
+    e7_containers.array_validator(F, R)
+    e7_containers.flex_reader(F, R)
+    e7_containers.flex_validator(F, R)
+    e7_containers.flex_size(F, R)
+    e8_portable.scalar_rules(F, R)
+
+
 def VALIDATION(F, R):
     e5_formulas.gate_rules(F, R)
     e6_generated.generated_rules(F, R, {"validate"})
@@ -60,6 +119,7 @@ def c01(F, R):
     e7_containers.flex_validator(F, R)
     e7_containers.array_validator(F, R)
     e9_witness.witness_rules(F, R)
+    FOUNDATION(F, R)
 
 
 def c02(F, R):
@@ -78,6 +138,7 @@ def c02(F, R):
     e5_formulas.base_formula_rules(F, R)
     e9_witness.witness_rules(F, R)
     e1_layout.impl_bound_rules(F, R)
+    FOUNDATION(F, R)
 
 
 def c03(F, R):
@@ -96,6 +157,7 @@ def c03(F, R):
     e7_containers.flex_validator(F, R)
     e7_containers.flex_reader(F, R)
     e7_containers.array_validator(F, R)
+    FOUNDATION(F, R)
 
 
 def c04(F, R):
@@ -105,6 +167,7 @@ def c04(F, R):
     e1_layout.layout_rules(F, R)
     e5_formulas.base_formula_rules(F, R)
     e6_generated.generated_rules(F, R, {"ptr"})
+    FOUNDATION(F, R)
 
 
 def c05(F, R):
@@ -115,7 +178,7 @@ def c05(F, R):
     e6_generated.generated_rules(F, R, {"size", "ptr"})
     e7_containers.flex_size(F, R)
     e7_containers.flex_writers(F, R)
-    e1_layout.layout_rules(F, R, containers_only=True)
+    FOUNDATION(F, R)
 
 
 def c06(F, R):
@@ -132,6 +195,7 @@ def c06(F, R):
     errkind_inventory(F, R)
     e1_layout.layout_rules(F, R)  # shortfall gates compare against MIN_SIZE / DATA_MIN_SIZES: they must be the real minimum sizes
     e5_formulas.base_formula_rules(F, R)
+    FOUNDATION(F, R)
 
 
 def errkind_inventory(F, R):
@@ -182,6 +246,7 @@ def c07(F, R):
     e3_io.ctor_rules(F, R, "blocking")
     framing_rules(F, R)
     e9_witness.witness_rules(F, R)
+    FOUNDATION(F, R)
 
 
 def framing_rules(F, R):
@@ -206,6 +271,7 @@ def c08(F, R):
     e3_io.ctor_rules(F, R, "async")
     framing_rules(F, R)
     e9_witness.witness_rules(F, R)
+    FOUNDATION(F, R)
 
 
 def c09(F, R):
@@ -234,13 +300,13 @@ def c10(F, R):
     e5_formulas.base_formula_rules(F, R)  # view extents: a message handed out lies inside the bytes received
     e6_generated.generated_rules(F, R, {"ptr"})
     e9_witness.witness_rules(F, R)
+    FOUNDATION(F, R)
 
 
 def c11(F, R):
     R.explain("C11 (FlatVec/FlatString as capacity-bounded Vec/String): the operations are stavec's (outside /repo); decided are flatty's mapping clauses: header layout "
               "for the (T, L) matrix, capacity = metadata computed by the in-bounds formula, validity predicate exact, single writer of the length word, Deref returns "
               "the inner vector only. Model equivalence under histories is NOT decided.")
-    e1_layout.layout_rules(F, R, containers_only=True)
     e5_formulas.base_formula_rules(F, R)
     e5_formulas.size_formula_rules(F, R)
     e5_formulas.trait_method_rules(F, R)
@@ -249,6 +315,8 @@ def c11(F, R):
     e7_containers.filling_emplacers(F, R)
     e2_guards.guard_rules(F, R, lambda n: n.startswith("__root_validate__K_Flat") or n.startswith("__root_size__K_Flat"), "vecstring", 20)
     no_shadowing(F, R)
+    container_cmp_rules(F, R)
+    FOUNDATION(F, R)
 
 
 def no_shadowing(F, R):
@@ -269,6 +337,41 @@ def no_shadowing(F, R):
          where="containers/src/vec.rs, string.rs")
 
 
+def container_cmp_rules(F, R):
+    """B3: equality / ordering of FlatVec and FlatString is the inner vector's (contents up to len), i.e. the derived impls on the single field --
+    never the raw bytes (which include stale spare capacity and padding)."""
+    from mir import Body
+    from e5_formulas import canon, the_return
+    import re as _re
+    want = ("core::cmp::PartialEq", "core::cmp::Eq", "core::cmp::PartialOrd", "core::cmp::Ord")
+    n = 0
+    for adt in ("flatty_containers::vec::FlatVec", "flatty_containers::string::FlatString"):
+        have = {}
+        for im in F.impls:
+            if im["krate"] == "flatty_containers" and im.get("self_adt") == adt and im["trait"] in want + ("core::hash::Hash",):
+                have[im["trait"]] = im
+        for tr in want:
+            im = have.get(tr)
+            short_adt = adt.split("::")[-1]
+            if im is None:
+                R.ob("B3.container-cmp", short_adt, tr, False, "%s implements %s (content comparison of the inner vector)" % (short_adt, tr))
+                continue
+            n += 1
+            ok = bool(im.get("derived"))
+            how = "derived on the single field (the inner stavec vector compares contents up to len)"
+            if not ok and tr in ("core::cmp::PartialEq", "core::cmp::PartialOrd", "core::cmp::Ord"):
+                meth = {"core::cmp::PartialEq": "eq", "core::cmp::PartialOrd": "partial_cmp", "core::cmp::Ord": "cmp"}[tr]
+                bs = [b for b in F.bodies if b["krate"] == "flatty_containers" and (b.get("impl") or {}).get("trait") == tr and
+                      (b.get("impl") or {}).get("self_adt") == adt and (b.get("impl") or {}).get("method") == meth]
+                if len(bs) == 1:
+                    rets = the_return(Body(bs[0]))
+                    pat = r"^[\w:<> ,]*::%s\((\$self\.0|<[^()]*Deref>::deref\(\$self\)), (\$other\.0|<[^()]*Deref>::deref\(\$other\))\)$" % meth
+                    ok = len(rets) == 1 and _re.match(pat, rets[0]) is not None
+                    how = "hand-written: %s" % rets
+            R.ob("B3.container-cmp", short_adt, tr, ok, "%s: %s is %s" % (short_adt, tr, how), where=im.get("span"))
+    R.floor("B3", "comparison impls of FlatVec / FlatString", n, 8)
+
+
 def c12(F, R):
     R.explain("C12 (FlexVec as a sequence): chain protocol reader = writers (0 ends, L::MAX marks the open last item, extents strictly below MAX and aligned), "
               "truncate/pop/clear cursor index, push/FromIterator slot values and destinations, size(). History equivalence is NOT decided.")
@@ -279,6 +382,7 @@ def c12(F, R):
     e7_containers.empty_emplacers(F, R)
     e2_guards.guard_rules(F, R, FLEX_ROOTS, "flexapi", 50)
     e9_witness.witness_rules(F, R)
+    FOUNDATION(F, R)
 
 
 def c13(F, R):
@@ -288,6 +392,8 @@ def c13(F, R):
     e7_containers.filling_emplacers(F, R)
     e8_portable.scalar_rules(F, R)  # `offset not representable` relies on L::from_usize being the native checked conversion for portable L
     no_shadowing(F, R)
+    container_cmp_rules(F, R)
+    FOUNDATION(F, R)
 
 
 def c14(F, R):
@@ -301,6 +407,7 @@ def c14(F, R):
     e7_containers.empty_emplacers(F, R)
     e1_layout.layout_rules(F, R)
     e9_witness.witness_rules(F, R)
+    FOUNDATION(F, R)
 
 
 def c15(F, R):
@@ -318,6 +425,7 @@ def c15(F, R):
     e5_formulas.trait_method_rules(F, R)
     e6_generated.generated_rules(F, R, {"ptr"})
     e9_witness.witness_rules(F, R)
+    FOUNDATION(F, R)
 
 
 def c16(F, R):
@@ -338,6 +446,7 @@ def c17(F, R):
     e1_layout.layout_rules(F, R)
     e9_witness.witness_rules(F, R)
     e1_layout.impl_bound_rules(F, R)
+    FOUNDATION(F, R)
 
 
 def c18(F, R):
@@ -351,6 +460,7 @@ def c18(F, R):
     e5_formulas.trait_method_rules(F, R)
     VALIDATION(F, R)  # "still a valid value": what the validators demand is what the emplacers must leave behind
     composite_limit(F, R)
+    FOUNDATION(F, R)
 
 
 def composite_limit(F, R):
@@ -384,6 +494,7 @@ def c19(F, R):
     e7_containers.flex_reader(F, R)
     e5_formulas.base_formula_rules(F, R)
     e1_layout.layout_rules(F, R)
+    FOUNDATION(F, R)
 
 
 def c20(F, R):
@@ -398,7 +509,14 @@ def c20(F, R):
     SIZES(F, R)       # "has the minimal size() for that state"
     e7_containers.filling_emplacers(F, R)
     e7_containers.flex_writers(F, R)
+    FOUNDATION(F, R)
 
+
+errkind_inventory = _once(errkind_inventory)
+no_shadowing = _once(no_shadowing)
+container_cmp_rules = _once(container_cmp_rules)
+composite_limit = _once(composite_limit)
+framing_rules = _once(framing_rules)
 
 PROPS = {
     "C01": [c01], "C02": [c02], "C03": [c03], "C04": [c04], "C05": [c05], "C06": [c06], "C07": [c07], "C08": [c08], "C09": [c09], "C10": [c10],
